@@ -77,6 +77,10 @@ func (p *parser) parseOperationDefinition() *OperationDefinition {
 
 func (p *parser) parseOperationType() Operation {
 	tok := p.next()
+	if tok.Kind != lexer.Name {
+		p.unexpectedToken(tok)
+		return ""
+	}
 	switch tok.Value {
 	case "query":
 		return Query
